@@ -25,6 +25,7 @@ type SpecCtx struct {
 	errs     []string
 	where    string
 	depth    int
+	snap     *loopSnap
 }
 
 func (vc *VC) newSpecCtx(fc *FuncContract, cur, old *State) *SpecCtx {
@@ -61,6 +62,9 @@ func (c *SpecCtx) state() *State {
 func (vc *VC) specIn(st *State, cl *Clause) Term {
 	ctx := vc.newSpecCtx(vc.contract, st, vc.entry)
 	ctx.typeArgs = vc.unitTypeArgs
+	if n := len(vc.loopStack); n > 0 {
+		ctx.snap = vc.loopStack[n-1]
+	}
 	vc.bindOwnParams(ctx)
 	return ctx.tr(cl.Expr)
 }
@@ -649,6 +653,26 @@ func (c *SpecCtx) trCall(x *SCall) Term {
 		t := c.tr(x.Args[0])
 		c.inOld = saved
 		return t
+	case "athead", "before":
+		if c.snap == nil {
+			return c.errorf("%s() outside a loop clause", fname)
+		}
+		target := c.snap.head
+		if fname == "before" {
+			target = c.snap.before
+		}
+		if target == nil {
+			return c.errorf("%s(): no snapshot", fname)
+		}
+		sc, so, si := c.cur, c.old, c.inOld
+		c.cur, c.inOld = target, false
+		t := c.tr(x.Args[0])
+		c.cur, c.old, c.inOld = sc, so, si
+		return t
+	case "ncalls", "lasterr":
+		name := specText(x.Args[0])
+		v := vc.callbackVar(fname, name)
+		return vc.readVar(c.state(), v)
 	case "len":
 		v := c.tr(x.Args[0])
 		switch v.Sort.Kind {
@@ -716,7 +740,7 @@ func (c *SpecCtx) trCall(x *SCall) Term {
 		return Term{"(store " + s.S + " " + v.S + " true)", s.Sort}
 	}
 	// ghost / spec function
-	if g := vc.eng.ghostFuncs[fname]; g != nil && g.Body != nil && !g.Extern {
+	if g := vc.eng.ghostFuncs[fname]; g != nil && g.Body != nil && !g.Extern && !g.Define {
 		// spec functions are macros: inlined in the caller's state (they may read ghost/heap state)
 		if len(x.Args) != len(g.Params) {
 			return c.errorf("spec func %s: wrong number of arguments", fname)
@@ -1040,7 +1064,7 @@ func (vc *VC) renderPrelude() string {
 				}
 				vc.axiomsDone[ax] = true
 				ctx := &SpecCtx{vc: vc, vars: map[string]Term{}, typeArgs: map[string]types.Type{}, noState: true, cf: cf, where: fmt.Sprintf("axiom %s:%d", cf.Path, ax.Line)}
-				ctx.pkg = vc.eng.pkgByPathOr(cf.PkgPath, vc.pkg)
+				ctx.pkg = vc.eng.pkgByPathOr(ax.PkgPath, vc.pkg)
 				t := ctx.tr(ax.Expr)
 				vc.U.axioms = append(vc.U.axioms, t.S)
 				changed = true
@@ -1079,7 +1103,7 @@ func (vc *VC) axiomRelevant(ax *Clause) bool {
 	any := false
 	for n := range names {
 		if g := vc.eng.ghostFuncs[n]; g != nil {
-			if g.Body != nil && !g.Extern {
+			if g.Body != nil && !g.Extern && !g.Define {
 				continue // macro
 			}
 			any = true
